@@ -23,8 +23,20 @@ META = dict(
          "whose ends strictly increase, and the next round gets no further or fails: 'the longest input obtainable by "
          "repeatedly growing the recursion from its base'), growLoop_round_grows, lr_no_base (no base case => "
          "ParseException at once, no unbounded recursion), lr_transparent_nonrec(_fail). The loop is structurally recursive "
-         "on a round budget (len+2 rounds suffice because ends strictly increase and are <= len+1). PARTIAL: equality with "
-         "the iterative grammar base (op tail)* is NOT a theorem - it is decided by the real-code oracle on generated direct "
+         "on a round budget. FULL STRENGTH at the growth-loop level (PPProofs/Props/C04Iter.lean): for the body of a DIRECT "
+         "left-recursive rule E <<= (E + tail) | base - lrBody = what MatchFirst[And[E, tail...], base] computes when the "
+         "nested E is a memo hit, generic in ARBITRARY sub-parser functions base/tail - the growth loop equals the iterative "
+         "grammar base (tail)* (iterRef: base, then tail greedily while it matches, shape of _MultipleMatch's loop, tokens "
+         "concatenated), for all base/tail, locations and budgets: lr_direct_eq_iterative (no actions), "
+         "lr_direct_eq_iterative_acts (do_actions=True, assuming action run and trial run agree on success and end "
+         "positions), lr_direct_eq_iterative_budget (any sufficient growth budget vs any sufficient repetition budget), "
+         "iterLoop_budget, iterLoop_no_hang, iterRef_plain. Hypotheses: a successful tail strictly advances (the property's "
+         "exclusion of empty repetition bodies), a base match ends at or after the location; fatal errors propagate "
+         "identically, a non-match of base is MatchFirst's (farther of the seed's and base's location). PARTIAL: the step "
+         "from the transcribed parser (parseLR on a node table E=Forward(MatchFirst[And[E,t...],b])) to lrBody, and from "
+         "iterRef to the model's parse of And[b, ZeroOrMore(And[t...])], is NOT a theorem (whitespace pre-parsing and "
+         "parse actions / results names on the nodes in between are not covered) - equality of the real LR parse with the "
+         "real parse of the derived repetition grammar is decided by the real-code oracle on generated direct "
          "left-recursive rule sets; indirect / mutual left recursion is the registered finding indirect_left_recursion "
          "(the real code returns the base case only) and is kept out of the generators.",
     note="Trusted: Lean kernel; axioms propext/Classical.choice/Quot.sound; the seed-growing model (in-growth memo entries as "
@@ -36,7 +48,10 @@ META = dict(
 )
 
 THEOREMS = ["PP.Parse.growLoop_peek_spec", "PP.Parse.growLoop_round_grows", "PP.Parse.lr_no_base",
-            "PP.Parse.lr_transparent_nonrec", "PP.Parse.lr_transparent_nonrec_fail"]
+            "PP.Parse.lr_transparent_nonrec", "PP.Parse.lr_transparent_nonrec_fail",
+            "PP.Parse.lr_direct_eq_iterative", "PP.Parse.lr_direct_eq_iterative_acts",
+            "PP.Parse.lr_direct_eq_iterative_budget", "PP.Parse.iterLoop_budget", "PP.Parse.iterLoop_no_hang",
+            "PP.Parse.iterRef_plain", "PP.Parse.growLoop_lrBody_loop"]
 
 CAPS = [None, 1, 2, 4]
 
@@ -167,7 +182,7 @@ def in_context(prog, root, it, itr, inputs, meta):
 
 def run(ctx):
     common.import_pyparsing()
-    ctx.proof_leg("PPProofs.Props.C04", THEOREMS)
+    ctx.proof_leg("PPProofs.Props.C04", THEOREMS, extra_modules=("PPProofs.Props.C04Iter",))
     ctx.rule.append("direct left-recursive rule sets from harness/gen_lr.py (1-3 levels, 1-2 operators per level, MatchFirst/Or "
                     "bodies, grouped/flat, '+'/'-' after the operator, optional parenthesised recursion) x 10 expression strings "
                     "(well-formed, trailing/leading operator, junk, empty, padded) x capacities None/1/2/4; non-trivial = distinct "
